@@ -283,6 +283,42 @@ func (o *C09) Check(x *h.Exec, ev *h.Event) {
 				x.Report("contradictory-nested", "targets", "", pr, &q)
 				return
 			}
+			// a target with a block header as definition range stands for that
+			// block: its range is the block's own extent (also the elements of
+			// list/set/map-typed nested blocks of an inferred body)
+			blockAt := map[string]world.Span{}
+			for _, f := range p.Files {
+				if f.Rendered == nil || !f.ParseOK {
+					continue
+				}
+				for _, n := range f.Rendered.Nodes {
+					if n != nil && n.Kind == "block" {
+						blockAt[fmt.Sprintf("%s|%d", f.Name, n.Range.Start)] = n.Range
+					}
+				}
+			}
+			var extentProblem func(ts reference.Targets, depth int) string
+			extentProblem = func(ts reference.Targets, depth int) string {
+				for _, t := range ts {
+					if t.DefRangePtr != nil && t.RangePtr != nil && t.RangePtr.Start.Byte == t.DefRangePtr.Start.Byte {
+						if sp, ok := blockAt[fmt.Sprintf("%s|%d", t.RangePtr.Filename, t.RangePtr.Start.Byte)]; ok && len(t.Addr) > 0 {
+							if _, isElem := t.Addr[len(t.Addr)-1].(lang.IndexStep); isElem && t.RangePtr.End.Byte != sp.End {
+								return fmt.Sprintf("element target %s stands for the block at bytes %d..%d but its range is bytes %d..%d", t.Addr.String(), sp.Start, sp.End, t.RangePtr.Start.Byte, t.RangePtr.End.Byte)
+							}
+						}
+					}
+					if depth < 12 {
+						if pr := extentProblem(t.NestedTargets, depth+1); pr != "" {
+							return pr
+						}
+					}
+				}
+				return ""
+			}
+			if pr := extentProblem(got, 0); pr != "" {
+				x.Report("element-extent", "targets", "", pr, &q)
+				return
+			}
 			// index top-level targets by (file, range)
 			type key struct {
 				file string
